@@ -285,7 +285,13 @@ fn block_case(input: &Value) -> Value {
     let original = uni.blocks[&2].clone();
     let mut mutated = original.clone();
     mutated.txdata = m.iter().map(|i| original.txdata[i - 1].clone()).collect();
-    let root_same = !mutated.txdata.is_empty() && mutated.compute_merkle_root() == Some(original.header.merkle_root);
+    let commit_self = input["commit"].as_str() == Some("self");
+    if commit_self && !mutated.txdata.is_empty() {
+        // the header honestly commits to the (possibly repeating) list
+        mutated.header.merkle_root = mutated.compute_merkle_root().unwrap();
+        crate::concrete::mine(&mut mutated.header, true);
+    }
+    let root_same = !mutated.txdata.is_empty() && mutated.compute_merkle_root() == Some(mutated.header.merkle_root);
     let store = OneHeaderStore { genesis: uni.blocks[&1].header };
     let validator = ic_btc_validation::BlockValidator::new(store, bitcoin::Network::Regtest);
     let now = std::time::Duration::from_secs(uni.genesis_time as u64 + 100000);
@@ -321,7 +327,7 @@ fn block_case(input: &Value) -> Value {
         }
     };
     let _ = original.header.merkle_root.to_byte_array();
-    json!({"fn": "block", "n": n, "m": m, "case": input["case"], "rootSame": root_same,
+    json!({"fn": "block", "n": n, "m": m, "case": input["case"], "rootSame": root_same, "commit": if commit_self { "self" } else { "original" },
            "out": {"verdict": verdict, "admitted": admitted}})
 }
 
